@@ -205,11 +205,11 @@ ScanResult(resp, base) ==
 
 CFinish ==
   /\ cl.pc = "wait" /\ cl.complSent
-  /\ cl.respGot \/ (Variant = "noWaitResp" /\ cl.user)
+  /\ cl.respGot \/ (Variant = "noWaitResp" /\ cl.user /\ cl.op.k = "Scan")
   /\ LET op == cl.op
          m == cl.resp
          sr == ScanResult(m, cl.base)
-         r == IF ~cl.respGot THEN [err |-> "cancelled"]
+         r == IF ~cl.respGot THEN ScanErr(RemotePrefix \o "scan cancelled", FALSE)
               ELSE IF m.t # "Resp" \/ m.k # op.k THEN [err |-> "unable to receive response"]
               ELSE CASE op.k = "Poll" -> [err |-> IF m.err = "" THEN "" ELSE RemotePrefix \o m.err, early |-> ~cl.user]
                      [] op.k = "Scan" -> sr.res
